@@ -125,7 +125,7 @@ def make_data(wrapped, extra=None):
         raise StopIteration
 
     from markupsafe import Markup
-    d = {"tup": (4, 5, 6), "pairs": [(1, "a"), (2, "b")], "dct": {"b": 2, "a": 1}, "mku": Markup("<b>m</b>"), "flt": 2.5, "tru": True,
+    d = {"fls": [0.1] * 10, "flrecs": [{"v": 0.1}] * 10, "tup": (4, 5, 6), "pairs": [(1, "a"), (2, "b")], "dct": {"b": 2, "a": 1}, "mku": Markup("<b>m</b>"), "flt": 2.5, "tru": True,
          "geni": geni, "stop": stop, "seq": [3, 1, 2, 3], "recs": [{"n": 1, "a": "x"}, {"n": 2, "a": "y"}, {"n": 1, "a": "z"}], "empty": [],
          "words": ["b", "a"], "fn": fn, "mk": mk, "n": 5, "s": "str",
          "recs2": [{"n": 1, "a": "x"}, {"a": "Y"}, {"n": 1}, {"a": "y", "n": 2}]}
@@ -148,7 +148,8 @@ def make_data(wrapped, extra=None):
             raise StopIteration
 
         d.update(geni=ageni, stop=astop, fn=afn, mk=amk, seq=AIterable(d["seq"]), recs=AIterable(d["recs"]), empty=AIterable([]), words=AIterable(d["words"]),
-                 recs2=AIterable(d["recs2"]), tup=AIterable(d["tup"]), pairs=AIterable(d["pairs"]))
+                 recs2=AIterable(d["recs2"]), tup=AIterable(d["tup"]), pairs=AIterable(d["pairs"]),
+                 fls=AIterable(d["fls"]), flrecs=AIterable(d["flrecs"]))
     return d
 
 
@@ -204,7 +205,10 @@ SNIPS = [
     "{% for x in geni() %}{{ loop.last }}{{ x }}{{ loop.revindex0 }}{{ loop.length }}{% endfor %}",
     "{% for x in geni() %}{{ loop.length }}{{ loop.nextitem }}{{ x }}{% endfor %}",
     # len() of the loop object (recorded finding C09-F9), StopIteration out of a data callable (C09-F10)
-    "{% for x in seq %}{{ loop|length }}{% endfor %}", "[{{ stop() }}]{{ stop() is undefined }}",
+    "{% for x in seq %}{{ loop|length }}{% endfor %}", "{% for x in seq if x %}{{ loop|length }}{{ x }}{% endfor %}",
+    "{% for x in mk() %}{{ loop|length }}{{ loop.length }}{% endfor %}", "[{{ stop() }}]{{ stop() is undefined }}",
+    # float accumulation (the builtin sum compensates on 3.12: both modes must use it)
+    "{{ fls|sum }}{{ fls|sum(start=1) }}{{ flrecs|sum(attribute='v') }}",
     # str start value of sum (recorded finding C09-F8)
     "{{ words|sum(start='') }}",
     "{{ (seq|list)[0] }}{{ seq|list|length }}", "{{ seq|list|sort|join }}", "{{ words|list|reverse|join }}",
@@ -253,10 +257,26 @@ def canon(v):
     return "ok:" + (v if isinstance(v, str) else "native:" + repr(v))
 
 
+NEVER_AWAITED = []
+
+
 def run_entry(env, loop, name, data, entry):
     try:
-        with warnings.catch_warnings():
-            warnings.simplefilter("ignore")
+        with warnings.catch_warnings(record=True) as wl:
+            warnings.simplefilter("always")
+            try:
+                return _run_entry(env, loop, name, data, entry)
+            finally:
+                import gc
+                if any("never awaited" in str(w.message) for w in wl) or (gc.collect() and any("never awaited" in str(w.message) for w in wl)):
+                    NEVER_AWAITED.append((name, entry, [str(w.message) for w in wl if "never awaited" in str(w.message)][:2]))
+    except Exception as e:  # noqa
+        return "exc:" + type(e).__name__
+
+
+def _run_entry(env, loop, name, data, entry):
+    try:
+        if True:
             t = env.get_template(name)
             native = type(env).__name__ == "NativeEnvironment"
             if entry == "render":
@@ -500,6 +520,12 @@ def oracle(ctx, jinja2, loop):
                      if nontriv and ctx.evaluations % 577 == 0 else None,
                      key=(ts["main.html"], cname, uname, AUTOESCAPE[0], wrapped) if nontriv else None)
             ctx.count(f"o_{mode}_{entry}{'_wrapped' if wrapped else ''}")
+            if NEVER_AWAITED:
+                w = NEVER_AWAITED.pop()
+                NEVER_AWAITED.clear()
+                ctx.reject({"templates": ts, "env": cname, "undefined": uname, "autoescape": AUTOESCAPE[0], "entry": entry, "mode": mode,
+                            "wrapped": wrapped, "warning": w[2], "tgen_data": repr(extra) if extra else None},
+                           f"a coroutine was created and never awaited ({w[2]})", "coroutine never awaited: " + (w[2][0].split("'")[1] if "'" in w[2][0] else "?"))
             if out != expect:
                 cons = culprit_consumer(ts["main.html"])
                 sig = "sum with str start" if ("sum(start=''" in ts["main.html"] and expect == "exc:TypeError") else \
